@@ -88,7 +88,7 @@ Proof.
     destruct (run_prog_agree true k now i who p (say it s) (say it s') (AgreeX_say i it s s' H)) as [H1 H2];
     destruct (run_prog true k now i who p (say it s)) as [s1 r]; destruct (run_prog true k now i who p (say it s')) as [s1' r'] end.
   cbn [fst snd] in H1, H2. subst r'. destruct H1 as [Ha1 Hl1]. destruct r; try (split; assumption).
-  - apply AgreeX_on_w; [split; assumption|]. apply (Agree_upd i _ _ (fun x => set_tpanics x (tpanics x + 1)) Ha1).
+  - apply AgreeX_on_w; [split; assumption|]. apply (Agree_upd i _ _ (fun x => set_tfin x (tfin x + 1)) Ha1).
   - apply AgreeX_on_w; [split; assumption|].
     apply (Agree_upd i _ _ (fun x => set_timers x (tins (now + d) {| tk_id := tk_id tk; tk_inc := tk_inc tk; tk_new := false; tk_rest := rest |} (timers x))) Ha1).
 Qed.
@@ -138,9 +138,9 @@ Lemma at_sim_start_agree k c now i stage s s' : AgreeX i s s' ->
   snd (at_sim_start k c now i stage s) = snd (at_sim_start k c now i stage s').
 Proof.
   intros H. pose proof H as [Ha Hl]. unfold at_sim_start. rewrite (ag_mod _ _ _ Ha).
-  set (e := if stage =? 0 then exec k now i (CbStart stage) (c_tasks c) (pick_start c (inc (w_mod (x_w s') i))) s
+  set (e := if stage =? 0 then exec k now i (CbStart stage) (c_spawn c) (pick_start c (inc (w_mod (x_w s') i))) s
             else exec k now i (CbStart stage) [] [] s).
-  set (e' := if stage =? 0 then exec k now i (CbStart stage) (c_tasks c) (pick_start c (inc (w_mod (x_w s') i))) s'
+  set (e' := if stage =? 0 then exec k now i (CbStart stage) (c_spawn c) (pick_start c (inc (w_mod (x_w s') i))) s'
              else exec k now i (CbStart stage) [] [] s').
   assert (He : AgreeX i (fst e) (fst e') /\ snd e = snd e') by (unfold e, e'; destruct (stage =? 0); apply exec_agree, H).
   destruct e as [s1 p], e' as [s1' p']. cbn [fst snd] in He. destruct He as [[Ha1 Hl1] ->].
